@@ -103,3 +103,23 @@ inline void use(std::vector<std::list<int>> &sink, const std::vector<std::vector
     emit_all(rounds, std::back_inserter(sink));
 }
 }
+
+// R07r: the current vertex is held by reference into the work list that the loop appends to
+namespace r07r_pos {
+inline unsigned long walk(const std::vector<std::vector<unsigned long>> &adj) {
+    std::vector<unsigned long> order;
+    std::vector<bool> seen(adj.size(), false);
+    unsigned long head = 0, loops = 0;
+    if (adj.empty()) return 0;
+    order.push_back(0);
+    seen[0] = true;
+    while (head < order.size()) {
+        const unsigned long &u = order[head++];
+        for (unsigned long w : adj[u]) {
+            if (w == u) { ++loops; continue; }
+            if (!seen[w]) { seen[w] = true; order.push_back(w); }
+        }
+    }
+    return loops;
+}
+}
